@@ -8,10 +8,12 @@ import contracts.potential, contracts.lammps_table, contracts.dlpoly_table, cont
 from contracts.eam_common import *
 import contracts.setfl as SF
 import contracts.eam_tabulation as ET
+import contracts.refdata as RDc
 
 F = SF.FILE
 FUNCTIONS = [(F, q) for q in ('_writeSetFLHeader', '_writeSetFLElementHeader', '_writeSetFLEmbeddingFunction', '_writeDensityFunction',
-                              '_writeSetFLDensityFunction', '_writeSetFLPairPots', 'writeSetFL')] + [(ET.FILE, 'SetFL_EAMTabulation.write')]
+                              '_writeSetFLDensityFunction', '_writeSetFLPairPots', 'writeSetFL')] + [(ET.FILE, 'SetFL_EAMTabulation.write')] + \
+            [(RDc.F_RD, 'Reference_Data.get')] + [(RDc.F_EB, 'EAM_Potential_Builder.' + q) for q in ('_get_mass', '_get_atomic_number', '_get_lattice_constant', '_get_lattice_type', '_create_eam_potential')]
 SPECSEQS = [SF.fvals, SF.pvals, SF.labels]
 
 def lemmas():
@@ -33,6 +35,18 @@ def lemmas():
     L('element-block', [k >= 0, k < n],
       SF.elem_block(es, nrho, drho, nr, dr, k) == cat(tok("%d %20.16e %20.16e %s", EAM['Z'](es[k]), EAM['mass'](es[k]), EAM['a0'](es[k]), EAM['lattice'](es[k])), NL,
                                                       SF.fvals(EAM['embed'](es[k]), crho / real(nrho - 1), nrho), SF.fvals(EAM['dens'](es[k]), c / real(nr - 1), nr)))
+    # metadata of the element line: [Species] override, else built-in table, else documented default (composition of the builder contract with the element header)
+    rd = z3.Const('rd', RDc.RD); sp = z3.String('sp'); e = z3.Const('e', EAM['sort'])
+    P = lambda x: z3.StringVal(x)
+    built = [EAM['Z'](e) == Val.vi(RDc.rd_val(rd, sp, P('atomic_number'))), EAM['mass'](e) == RDc.as_real(RDc.rd_val(rd, sp, P('atomic_mass'))),
+             EAM['a0'](e) == z3.If(RDc.rd_has(rd, sp, P('lattice_constant')), RDc.as_real(RDc.rd_val(rd, sp, P('lattice_constant'))), z3.RealVal(0)),
+             EAM['lattice'](e) == z3.If(RDc.rd_has(rd, sp, P('lattice_type')), Val.vs(RDc.rd_val(rd, sp, P('lattice_type'))), z3.StringVal('fcc'))]
+    L('metadata/no-override-no-table-entry-gives-defaults', built + [z3.Not(RDc.rd_has(rd, sp, P('lattice_constant'))), z3.Not(RDc.rd_has(rd, sp, P('lattice_type')))],
+      SF.elem_header(e) == cat(tok("%d %20.16e %20.16e %s", EAM['Z'](e), EAM['mass'](e), z3.RealVal(0), z3.StringVal('fcc')), NL))
+    L('metadata/override-wins-over-table', built + [RDc.override_has(rd, sp, P('atomic_mass')), RDc.override_val(rd, sp, P('atomic_mass')) == Val.VR(r)], EAM['mass'](e) == r)
+    L('metadata/table-used-without-override', built + [z3.Not(RDc.override_has(rd, sp, P('atomic_number'))), z3.Select(RDc.BT_has, sp)],
+      EAM['Z'](e) == RDc.ed_Z(z3.Select(RDc.BT_get, sp)))
+    L('metadata/built-in-table-has-no-lattice-data', [z3.Not(RDc.override_has(rd, sp, P('lattice_constant')))], z3.Not(RDc.rd_has(rd, sp, P('lattice_constant'))))
     # pair value k of block (i,j): r*phi(r) at r = k*dr, phi independent of the order the species were declared in, zero when undeclared
     L('phi-is-unordered', [], phi(ps, a, b, r) == phi(ps, b, a, r))
     L('phi-zero-when-undeclared', [find(ps, smin(a, b), smax(a, b), z3.Length(ps)) < 0], phi(ps, a, b, r) == 0)
@@ -48,6 +62,14 @@ def lemmas():
     return out + tables.routing_obligations('C03', ['setfl', 'lammps_eam_alloy'])
 
 MUTANTS = [
+    (RDc.F_RD, 'Reference_Data.get', "species_dat.update(self.extra_data.get(species, {}))", "pass", 'post/override'),
+    (RDc.F_RD, 'Reference_Data.get', "if not property_name in species_dat:", "if property_name in species_dat:", 'post'),
+    (RDc.F_EB, 'EAM_Potential_Builder._get_lattice_constant', "return 0.0", "return 1.0", 'post'),
+    (RDc.F_EB, 'EAM_Potential_Builder._get_lattice_type', "return 'fcc'", "return 'bcc'", 'post'),
+    (RDc.F_EB, 'EAM_Potential_Builder._get_mass', "'atomic_mass'", "'atomic_number'", 'post'),
+    (RDc.F_EB, 'EAM_Potential_Builder._get_atomic_number', "except Reference_Data_Exception:", "except KeyError:", 'raises'),
+    (RDc.F_EB, 'EAM_Potential_Builder._create_eam_potential', "lattice_constant, lattice_type)", "mass, lattice_type)", 'post/lattice-constant'),
+    (RDc.F_EB, 'EAM_Potential_Builder._create_eam_potential', "embedding_function = embed_dict[species]", "embedding_function = density_dict[species]", 'post/embedding-function'),
     (F, '_writeSetFLPairPots', "range(i + 1)", "range(i)", 'preserve'),
     (F, '_writeSetFLPairPots', "k.sort()", "pass", 'preserve'),
     (F, '_writeSetFLPairPots', "pairpotsdict.get(k, zeroPair)", "pairpotsdict.get(k, pp)", 'preserve'),
@@ -61,7 +83,7 @@ ASSUMPTIONS = ['A1: float as real', 'A7: setfl / pair_style eam/alloy layout (el
                'species labels pairwise distinct; functions total on the grid (else C17 applies)',
                'A4: str.join / list slicing / sort of two strings per the CPython documentation']
 NOTES = ['SetFL_EAMTabulation.write passes no cutoff to writeSetFL, so the header\'s cutoff field is nr*dr = cutoff*nr/(nr-1), not the [Tabulation] cutoff; LAMMPS uses this field only as the interaction cutoff and the statement does not constrain it: reported as a note',
-         'per-element metadata precedence ([Species] override, else built-in table, else 0.0/fcc) is in config/_eam_potential_builder.py and referencedata: covered by the oracle\'s potable route (bounded) until those contracts are added',
+         'per-element metadata precedence ([Species] override, else built-in table, else 0.0/fcc): Reference_Data.get, the four getters and _create_eam_potential of the EAM builder are under contract (contracts/refdata.py); the conversion of [Species] text to int/float/str is the precondition well_typed (ConfigParser._convert_species_type, C16)',
          'when two pair potentials are declared for the same unordered pair the LAST one is used (C20 rejects that situation in potable files)']
 
 def oracle_payload(tier, seed, mode='search'): return dict(mode=mode, seed=seed, n=40 if tier == 'quick' else 1500)
